@@ -125,6 +125,7 @@ func TestWorker(t *testing.T) {
 				out.Stats["pool_recycled"] += r.Sim.PoolStats.Recycled
 				out.Stats["pool_recycled_across_tasks"] += r.Sim.PoolStats.CrossTask
 				out.Stats["pool_dropped"] += r.Sim.PoolStats.Dropped
+				out.Stats["pool_double_put"] += r.Sim.PoolStats.DoublePut
 				out.Stats["yield_inside_lock"] += r.Sim.InLockYields
 			}
 			if r.eng.NonTrivial() {
